@@ -106,6 +106,11 @@ func NewCommit(o *Object) (*Commit, error) {
 
 	commit.Message = strings.TrimSuffix(message, "\n")
 
+	// every reader goes on to load the snapshot: a commit that names no tree is not a commit
+	if commit.Tree == nil {
+		return nil, ErrInvalidCommitObject
+	}
+
 	return commit, nil
 }
 
